@@ -78,10 +78,38 @@ fn main() {
         }
     }
 
-    let Some(rep) = props::run(&ctx) else {
-        eprintln!("unknown property id {}", id);
-        std::process::exit(2);
+    // Last-resort watchdog: every phase polls the soft budget, so this only fires when the code under test makes a
+    // single step or a phase without a poll point run away. It is a machinery exit, never a verdict.
+    {
+        let hard = std::env::var("VERIF_HARD_LIMIT_S").ok().and_then(|s| s.parse::<f64>().ok()).unwrap_or(ctx.budget_s() * 6.0 + 120.0);
+        let wid = id.clone();
+        std::thread::spawn(move || {
+            std::thread::sleep(std::time::Duration::from_secs_f64(hard));
+            eprintln!("MACHINERY: [{}] hard wall-clock limit of {:.0} s reached; the run is abandoned without a verdict", wid, hard);
+            std::process::exit(2);
+        });
+    }
+    // A panic that escapes a check is a panic of the harness's own set-up code, typically inside a library call used
+    // to build test data (a page, a frame) on a tree where that call is broken: another property's business, and for
+    // this one a machinery exit, never a verdict.
+    let ran = fdv::util::catch(|| props::run(&ctx));
+    let rep = match ran {
+        Ok(Some(rep)) => rep,
+        Ok(None) => {
+            eprintln!("unknown property id {}", id);
+            std::process::exit(2);
+        }
+        Err(p) => {
+            eprintln!("MACHINERY: [{}] the harness panicked outside a judged call ({} at {}); no verdict for this property", id, p.message, p.location);
+            std::process::exit(2);
+        }
     };
-    let code = finish(rep, &|c, v| props::replay(c, v));
+    let code = match fdv::util::catch(move || finish(rep, &|c, v| props::replay(c, v))) {
+        Ok(code) => code,
+        Err(p) => {
+            eprintln!("MACHINERY: [{}] the harness panicked while confirming or writing its results ({} at {}); no verdict", id, p.message, p.location);
+            2
+        }
+    };
     std::process::exit(code);
 }
